@@ -2,6 +2,7 @@ import Pds.Proofs.CmsMerge
 import Pds.Proofs.BloomUnion
 import Pds.Proofs.HllMerge
 import Pds.Props.C14
+import Pds.Props.C13
 /-!
 # C06 — merge/union is equivalent to having processed both streams (Bloom, CMS, HLL clauses)
 
@@ -190,5 +191,44 @@ theorem cuckoo_same_abs_same_answers (hash : List Nat → Nat) {s t : St R}
   rw [hp.1, hp.2]
 
 end Cuckoo
+
+/-! ## Quotient filter clause (from the set refinement of C13) -/
+section QuotientFilter
+open Pds.Quotient
+variable {N : Nat}
+
+/-- Quotient filter: `union` either fails with `Full` (exactly when the two sets together exceed the
+`N` slots) leaving the receiver untouched, or succeeds and then the receiver stores exactly the
+set union — the same abstract state as after receiving both streams — with `len` its cardinality.
+The cluster walk with the FIFO queue of pending quotients decodes the other operand exactly, also
+for clusters of three and more runs and clusters wrapping around the end of the slot array. -/
+theorem quotient_union_eq_set_union {t o : St N} {S So : Finset (Fin N × Nat)}
+    (hr : Rep t S) (ho : Rep o So) :
+    (union t o = some (t, .full) ∧ N < (S ∪ So).card) ∨
+      ∃ t', union t o = some (t', .ok true) ∧ Rep t' (S ∪ So) ∧ t'.n = (S ∪ So).card :=
+  match Pds.Props.C13.union_correct hr ho with
+  | .inl h => .inl h
+  | .inr ⟨t', h1, h2, h3, _⟩ => .inr ⟨t', h1, h2, h3⟩
+
+/-- Observational form: two well-formed tables storing the same set answer every query identically
+and have the same length; hence `union` is commutative, associative and idempotent as observed
+through the API (`S ∪ So = So ∪ S`, `(S ∪ T) ∪ U = S ∪ (T ∪ U)`, `S ∪ S = S`). -/
+theorem quotient_same_set_same_answers {t t' : St N} {S : Finset (Fin N × Nat)}
+    (hr : Rep t S) (hr' : Rep t' S) (a : Fin N) (r : Nat) :
+    (∃ sr sr', scan t a r false = some sr ∧ scan t' a r false = some sr' ∧ sr.present = sr'.present) ∧
+    t.n = t'.n := by
+  obtain ⟨sr, hs, hp⟩ := Pds.Props.C13.scan_correct hr a r false
+  obtain ⟨sr', hs', hp'⟩ := Pds.Props.C13.scan_correct hr' a r false
+  refine ⟨⟨sr, sr', hs, hs', ?_⟩, by rw [hr.2, hr'.2]⟩
+  cases h1 : sr.present <;> cases h2 : sr'.present <;> simp_all
+
+/-- Merging a quotient filter with itself changes nothing observable: it succeeds and stores the same set. -/
+theorem quotient_union_idem {t : St N} {S : Finset (Fin N × Nat)} (hr : Rep t S) (hcard : S.card ≤ N) :
+    ∃ t', union t t = some (t', .ok true) ∧ Rep t' S := by
+  rcases Pds.Props.C13.union_correct hr hr with ⟨_, hlt⟩ | ⟨t', h1, h2, _, _⟩
+  · rw [Finset.union_self] at hlt; omega
+  · rw [Finset.union_self] at h2; exact ⟨t', h1, h2⟩
+
+end QuotientFilter
 
 end Pds.Props.C06
